@@ -146,6 +146,7 @@ func checkRec(c recCase) error {
 	rd := wm.EncodeRdata(r)
 	tn := typeName(r.Type)
 	pbt.Note(w, len(rd) > 0 && needsCare(r), "type:"+tn)
+	pbt.Class(valueClasses(r)...)
 	born, off, err := dns.UnpackRR(w, 0)
 	if err != nil || off != len(w) {
 		return nil // C01's business
@@ -245,7 +246,7 @@ func genRec(t *rapid.T) recCase {
 	if r.Type == wm.TPrivate {
 		r = gen.RecOfType(t, wm.TA, o)
 	}
-	return recCase{R: r}
+	return recCase{R: widen(t, r)}
 }
 
 // eachLongToken: the longest single tokens a record's text can contain. An SvcParam value is
@@ -323,6 +324,7 @@ func checkPlain(c plainCase) error {
 	}
 	tn := typeName(r.Type)
 	pbt.Note(append([]byte(c.Text), w...), needsCare(r), "type:"+tn)
+	pbt.Class(valueClasses(r)...)
 	pbt.Sample("independent-text:"+tn, short(c.Text))
 	// library reads the independent text
 	rr, err := parse(c.Text)
@@ -365,10 +367,7 @@ func plainTypeList() []uint16 {
 
 func genPlain(t *rapid.T) plainCase {
 	o := &gen.Opts{Level: gen.Presentable, Types: plainTypeList(), MaxBlob: 40, NameGen: longOrShortName}
-	r := gen.Rec(t, o)
-	if r.Type == wm.TGPOS {
-		// GPOS fields are numbers written without quotes; nothing to spell differently
-	}
+	r := widen(t, gen.Rec(t, o))
 	return plainCase{R: r, Text: writeRecord(t, r)}
 }
 
@@ -534,7 +533,7 @@ var textNoise = []string{`"`, `\`, `;`, `(`, `)`, ` `, "\t", `\"`, `\\`, `\000`,
 
 func genText(t *rapid.T) textCase {
 	o := &gen.Opts{Level: gen.Presentable, Types: textTypes(), Unknown: true, MaxBlob: 24}
-	r := gen.Rec(t, o)
+	r := widen(t, gen.Rec(t, o))
 	var text string
 	if _, ok := plainTypes[r.Type]; ok && !r.NoRdata && rapid.Bool().Draw(t, "independent") {
 		text = writeRecord(t, r)
